@@ -76,11 +76,15 @@ def gen_case(rng, mode='2d', nb=None, nm=None, flags=None, hostile=False, fmt='v
     else:
         nap = rng.randint(2, 8)
         case['theta'] = [rng.dyadic(1.0, 10.0, 6) for _ in range(nb)]
-        dk = rng.choice(['range', 'range', 'range', 'equal', 'beyond'])
+        dk = rng.choice(['range', 'range', 'range', 'equal', 'beyond', 'exact'])
         d0 = rng.logdyadic(0.05, 5.0, 8)
         d1 = d0 if dk == 'equal' else d0 * rng.logdyadic(1.2, 30.0, 8)
-        case['drange'] = [d0, d1]
         case['logd_step'] = rng.choice([0.01, 0.02, 0.05, 0.1, 0.25, 0.5])
+        if dk == 'exact':      # the range is an exact whole number of steps, in floating point and in exact arithmetic alike
+            d0 = rng.choice([0.1, 1.0])
+            d1 = d0 * rng.choice([10.0, 100.0])
+            case['logd_step'] = rng.choice([0.125, 0.25, 0.5, 1.0])
+        case['drange'] = [d0, d1]
         case['aps'] = []
         case['flux'] = [[None] * nb for _ in range(nm)]
         for j in range(nb):
